@@ -43,26 +43,8 @@ def _no_ignored_targets(ctx: Ctx, ob: Obligation) -> Optional[z3.BoolRef]:
     return z3.And(*[a == bs.z for a in apps])
 
 
-def _splice_class(ctx: Ctx, ob: Obligation) -> Any:
-    """witness class of F4b: a call shape that passes one of the first three parameters by
-    keyword, or more than three arguments positionally, or scale_power (U.linear)"""
-    import ast
-    import re
-
-    m = re.search(r"callshape\[positional=(\[.*?\]),keyword=(\[.*?\])\]", ob.name)
-    if not m:
-        return False
-    pos, kw = ast.literal_eval(m.group(1)), ast.literal_eval(m.group(2))
-    first3 = {"input", "weight", "bias", "query", "key", "value"}
-    target = re.search(r"_replace_with_quantised\[(.*?)\]", ob.name).group(1)
-    too_many_positional = len(pos) > (4 if target == "U.linear" else 3)  # U.linear(x, w, b, constraint) works
-    in_class = too_many_positional or any(k in first3 for k in kw) or "scale_power" in pos + kw
-    return None if in_class else False
-
-
 RESTRICTIONS: Dict[str, Callable[[Ctx, Obligation], Any]] = {
     "F6-cross_entropy-mean-ignore_index": _no_ignored_targets,
-    "F4b-simulate_format-call-shapes": _splice_class,
 }
 
 harness.KNOWN_RESTRICTIONS.clear()
